@@ -18,5 +18,6 @@ CONSTANTS
   StaleLocals = FALSE
   Orphans = {}
   LockViaParent = FALSE
+  NumberUpFront = TRUE
 INVARIANTS RaceLog TextLog
 CHECK_DEADLOCK FALSE
